@@ -59,7 +59,7 @@ def run(chk):
     rng = random.Random(chk.seed)
     maxlen = 3 if chk.tier == 'quick' else 4
     chk.rule = ('all literal bodies up to length %d over the 18-symbol alphabet of the property x 3 quote kinds (exhaustive), seeded sample of lengths %d-6, '
-                'structured escapes (every escape form with correct / short / long / out-of-range digits; every digit position of every form filled with characters that alias a digit under truncation or are non-ASCII digits); oracle: accepted verbatim <=> well formed per spec.  '
+                'structured escapes (every escape form with correct / short / long / out-of-range digits; every digit position of every form filled with characters that alias a digit under truncation, are non-ASCII digits, or are tolerated by library integer parsers: sign, `_`, blanks, radix marks); oracle: accepted verbatim <=> well formed per spec.  '
                 'non-trivial: well formed or accepted; distinct by literal text.' % (maxlen, maxlen + 1))
     lits = [(q, ''.join(t)) for q in "'\"`" for n in range(0, maxlen + 1) for t in itertools.product(ALPHA, repeat=n)]
     cases = [('file', PRE + q + b + q) for q, b in lits]
@@ -98,7 +98,9 @@ def run(chk):
     # non-ASCII code points whose low byte (or low 16 bits) is an ASCII digit / hex letter, full-width and other
     # Unicode decimal digits, and the ASCII neighbours of the digit ranges
     ALIAS = ['\u0130', '\u0141', '\u0166', '\u4e30', '\u4e41', '\U0001f630', '\U00010041', '\uff11', '\uff21', '\u0661', '\u0967',
-             '/', ':', '@', 'G', '`', 'g', '8', '9']
+             '/', ':', '@', 'G', '`', 'g', '8', '9',
+             # what library integer parsers tolerate around or inside digits: sign, separator, blanks, radix marks
+             '+', '-', '_', ' ', '\t', '.', 'x', 'X', 'h', 'L']
     FORMS = [('\\x', 2, HEX), ('\\u', 4, HEX), ('\\U', 8, '0'), ('\\', 3, '0123')]
     lits4 = []
     for q in "'\"":
